@@ -121,7 +121,8 @@ def rule_fanout(ctx, f):
         return "async_broadcast::Sender" in c.callee and "broadcast" in c.callee.rsplit("::", 1)[-1]
     bodies = [b for b in fam if any(is_bcast(c) for c in mir.calls(b))]
     rx = ctx.one(bodies, "the body of receive_msg that broadcasts", "F-FANOUT")
-    ctx.ob("F-FANOUT", "loop-is-a-coroutine", rx.kind == "coroutine", "fan-out runs inside the async reader body", rx.where)
+    ctx.ob("F-FANOUT", "loop-is-a-coroutine", rx.kind == "coroutine", "fan-out runs inside the async reader body" if rx.kind == "coroutine" else
+           "the broadcasting body is not a coroutine (kind %s)" % rx.kind, rx.where)
     awaited = L.awaited_calls(f, rx)
     reads = mir.calls_to(rx, SR + "::read_socket")
     ctx.floor("F-FANOUT", "read_socket calls in the reader loop", len(reads), 1)
@@ -136,7 +137,7 @@ def rule_fanout(ctx, f):
     ctx.ob("F-FANOUT", "single-iteration-point", N is not None, "one `next()` drives the loop over the senders map" if N else
            "%d next() calls over the senders map" % len(nexts), rx.where)
     for r in reads:
-        ctx.ob("F-FANOUT", "read-awaited", r.b in awaited, "read_socket().await", r.where)
+        ctx.ob("F-FANOUT", "read-awaited", r.b in awaited, "read_socket().await" if r.b in awaited else "read_socket() future is not awaited in place", r.where)
     for c in bcs:
         ctx.ob("F-FANOUT", "broadcast-awaited", c.b in awaited,
                "the broadcast future is awaited: the reader proceeds only when the queue accepted the message (back-pressure, order)" if c.b in awaited else
@@ -179,7 +180,7 @@ def rule_fanout(ctx, f):
                     skip_targets.add(ft)
     ctx.floor("F-FANOUT", "rule.matches(msg) tests in the loop", len(ms), 1)
     r = mir.reachable(rx, [some_t], avoid=bc_blocks | skip_targets | {N.b})
-    leaks = N.b in {x for b in r for x in mir.succs(rx)[b]} - set() and any(N.b in mir.succs(rx)[b] for b in r)
+    leaks = any(N.b in mir.succs(rx)[b] for b in r)
     esc = [b for b in r if mir.term(rx, b)[0] == "ret"] or any(rd.b in r for rd in reads)
     for st in sorted(skip_targets):
         rr = mir.reachable(rx, [st], avoid={N.b})
@@ -439,7 +440,8 @@ def rule_pair(ctx, f):
         # key derives from the entry's key / the rule
         kder = mir.derives(rm, {x.dest[0] for x in mir.calls(rm) if x.is_("key") and "OccupiedEntry" in x.callee} |
                            {l for l in range(len(rm.locals)) if rm.locals[l][1] == "rule"})
-        ctx.ob("F-PAIR", "remove:sender-key-is-the-rule", L.op_in(c.args[1], kder), "msg_senders.remove is keyed by the rule being removed", c.where)
+        ctx.ob("F-PAIR", "remove:sender-key-is-the-rule", L.op_in(c.args[1], kder), "msg_senders.remove is keyed by the rule being removed"
+               if L.op_in(c.args[1], kder) else "msg_senders.remove is keyed by something else than the rule being removed", c.where)
     for sbz, zt, nzt, ln in zero:
         both = all(any(mir.block_dominates(rm, zt, c.b) for c in grp) for grp in (rems, srem) if grp)
         ctx.ob("F-PAIR", "remove:zero-edge-unregisters", both and bool(rems) and bool(srem),
